@@ -11,11 +11,12 @@ import subprocess
 from .. import e2e, gen, probe
 from ..common import Result, rng_for, Inconclusive, NCPU
 
-RULE = ("closed universe {en,en-US,en-GB,fr,fr-FR,fr-CA,zh,zh-Hans,zh-Hant,zh-Hant-TW,de,de-DE-1996} + {und,*,xx-invalid-}; an "
+RULE = ("closed universe {en,en-US,en-GB,fr,fr-FR,fr-CA,zh,zh-Hans,zh-Hant,zh-Hant-TW,de,de-DE-1996} + {und,*,xx-invalid-} + request-only {de-1996,fr-Latn,zh-Hant-HK}; an "
         "evaluation is one find_locale(supported, default, requests) judged by the oracle (result supported; matches the first "
         "matched request; exact beats less specific; default when nothing matches); non-trivial = request list of length >= 2; "
         "distinct = every (supported set, default, request list) is enumerated once")
 
+REQUEST_ONLY = ["de-1996", "fr-Latn", "zh-Hant-HK"]
 UNIVERSE = ["en", "en-US", "en-GB", "fr", "fr-FR", "fr-CA", "zh", "zh-Hans", "zh-Hant", "zh-Hant-TW", "de", "de-DE-1996"]
 
 
@@ -105,7 +106,7 @@ def run(tier, seed, replay=None):
     # the Rust oracle itself is cross-checked against the Python oracle on the sampled evaluations
     for s in sw["samples"]:
         res.ev()
-        why = judge(s["supported"], [parts(r) if r in UNIVERSE else None for r in s["requests"]], s["result"])
+        why = judge(s["supported"], [parts(r) if r in UNIVERSE + REQUEST_ONLY else None for r in s["requests"]], s["result"])
         if why:
             res.violation("C12/oracles-disagree", "python oracle rejects a result the rust oracle accepted: %s %s" % (s, why), s)
     # (2) free-form strings, judged in Python with ICU's own parse of each entry
